@@ -65,6 +65,11 @@ def _names(ids):
     return numpy.array(["t%d" % i for i in ids], dtype=object)
 
 
+def _grps(ids):
+    """taxa_grp is a function of the taxon identity, so carrying it correctly is observable"""
+    return numpy.array([i % 3 for i in ids], dtype=int)
+
+
 def _ids(names):
     out = []
     for s in names:
@@ -94,6 +99,7 @@ def _no_inf(x):
 def _snap(b):
     n, t = b.mat.shape
     d = {"taxa": _ids(b.taxa) if b.taxa is not None else [],
+         "taxa_grp": None if b.taxa_grp is None else [int(g) for g in b.taxa_grp],
          "mat": _enc_cols(b.mat), "loc": canon.enc(numpy.asarray(b.location, dtype=float)),
          "scale": canon.enc(numpy.asarray(b.scale, dtype=float)), "unscale": _enc_cols(b.unscale())}
     if n > 0:
@@ -108,11 +114,12 @@ def _snap(b):
     return d
 
 
-def _operand(cls, v, t):
+def _operand(cls, v, t, grp):
     rows = _np_rows(v["rows"], t)
+    g = _grps(v["taxa"]) if grp else None
     if v["as"] == "bv":
-        return cls.from_numpy(rows, taxa=_names(v["taxa"])), {}
-    return rows, {"taxa": _names(v["taxa"])}
+        return cls.from_numpy(rows, taxa=_names(v["taxa"]), taxa_grp=g), {}
+    return rows, ({"taxa": _names(v["taxa"]), "taxa_grp": g} if grp else {"taxa": _names(v["taxa"])})
 
 
 def _index(form, idx):
@@ -125,21 +132,38 @@ def _index(form, idx):
     return list(idx)
 
 
-def _apply(cls, b, op, t, generic):
+def _pyobj(obj):
+    """numpy index object from its JSON description (see Drv/C15.lean `delIdx`/`insIdx`)"""
+    k = obj["kind"]
+    if k == "int":
+        return int(obj["i"])
+    if k == "list":
+        return [int(i) for i in obj["is"]]
+    if k == "slice":
+        return slice(obj.get("a"), obj.get("b"), obj.get("c"))
+    if k == "mask":
+        return numpy.array(obj["m"], dtype=bool)
+    raise ValueError(k)
+
+
+def _apply(cls, b, op, t, generic, grp=False):
     """apply one taxa operation; returns the resulting matrix (in-place operations return `b`)"""
     k = op["op"]
     if k == "select":
         ix = _index(op.get("form", "list"), op["idx"])
         return b.select(ix, axis=0) if generic else b.select_taxa(ix)
     if k == "delete":
-        ix = _index(op.get("form", "list"), op["idx"])
+        ix = _pyobj(op["obj"]) if "obj" in op else _index(op.get("form", "list"), op["idx"])
         return b.delete(ix, axis=-2) if generic else b.delete_taxa(ix)
     if k == "insert":
-        vals, kw = _operand(cls, op["vals"], t)
-        pos = int(op["k"]) if op.get("kform") == "int" else [int(op["k"])]
+        vals, kw = _operand(cls, op["vals"], t, grp)
+        if "obj" in op:
+            pos = _pyobj(op["obj"])
+        else:
+            pos = int(op["k"]) if op.get("kform") == "int" else [int(op["k"])]
         return b.insert(pos, vals, axis=0, **kw) if generic else b.insert_taxa(pos, vals, **kw)
     if k == "adjoin":
-        vals, kw = _operand(cls, op["vals"], t)
+        vals, kw = _operand(cls, op["vals"], t, grp)
         return b.adjoin(vals, axis=0, **kw) if generic else b.adjoin_taxa(vals, **kw)
     if k == "reorder":
         b.reorder_taxa(numpy.array(op["idx"], dtype=int))
@@ -152,25 +176,28 @@ def _apply(cls, b, op, t, generic):
             b.remove_taxa(ix)
         return b
     if k == "append":
-        vals, kw = _operand(cls, op["vals"], t)
+        vals, kw = _operand(cls, op["vals"], t, grp)
         if generic:
             b.append(vals, axis=0, **kw)
         else:
             b.append_taxa(vals, **kw)
         return b
     if k == "incorp":
-        vals, kw = _operand(cls, op["vals"], t)
+        vals, kw = _operand(cls, op["vals"], t, grp)
         pos = int(op["k"]) if op.get("kform") == "int" else [int(op["k"])]
         b.incorp_taxa(pos, vals, **kw)
         return b
     if k == "concat":
-        others = [cls.from_numpy(_np_rows(o["rows"], t), taxa=_names(o["taxa"])) for o in op["others"]]
+        others = [cls.from_numpy(_np_rows(o["rows"], t), taxa=_names(o["taxa"]),
+                                 taxa_grp=_grps(o["taxa"]) if grp else None) for o in op["others"]]
         return cls.concat([b] + others, axis=0) if generic else cls.concat_taxa([b] + others)
     raise ValueError(k)
 
 
 def _lean_op(op, t):
     k = op["op"]
+    if k == "delete" and "obj" in op:
+        return {"op": k, "obj": op["obj"]}
     if k in ("select", "delete", "reorder", "remove"):
         return {"op": k, "idx": list(op["idx"])}
     if k in ("insert", "incorp", "adjoin", "append"):
@@ -178,6 +205,8 @@ def _lean_op(op, t):
         d = {"op": k, "vals": {"as": v["as"], "cols": _cols(v["rows"], t), "taxa": v["taxa"]}}
         if "k" in op:
             d["k"] = op["k"]
+        if "obj" in op:
+            d["obj"] = op["obj"]
         return d
     if k == "concat":
         return {"op": k, "others": [{"cols": _cols(o["rows"], t), "taxa": o["taxa"]} for o in op["others"]]}
@@ -214,9 +243,12 @@ class C15(Prop):
     N_QUICK = 450
     N_THOROUGH = 6000
     RULE = ("raw matrices of 1-12 (occasionally 49/98/103) taxa x 1-4 traits over integers / dyadic rationals "
-            "with constant columns, NaN entries (also whole NaN columns), offsets of 1e6, ties for the "
+            "with constant columns (also constant among the observed taxa with NaN), NaN entries (also whole NaN "
+            "columns), offsets of 1e6 and of 1e9 with spread 0.5, ties for the "
             "arg-extrema; built with from_numpy in the three classes; histories of 0-5 taxa operations "
-            "(select with repeats / delete / insert / adjoin with ndarray or matrix operands, reorder; a "
+            "(select with repeats and negative positions / delete by int, list, slice, boolean mask / insert at one or "
+            "several positions, one value each or one broadcast / adjoin, with ndarray or matrix operands, "
+            "taxa_grp present or absent, in-place reorder between unscale() calls; a "
             "separate stream with the inherited in-place append/remove/incorp and concat_taxa; a malformed "
             "stream with bad positions / trait counts); after every step unscale(), location, scale, the "
             "stored matrix and all eight statistics (unscale=True and False) are observed.  A separate kind "
@@ -226,10 +258,13 @@ class C15(Prop):
     TRUSTED = ["numpy.sqrt: the model runs with a 30-digit rational square root; the theorems hold for "
                "every function `sq`, the unit-variance / tvar ones under sq(x)^2 = x",
                "numpy's axis-0 primitives act column by column (the model is trait-major)",
-               "taxa labels are carried as in C03 (only their order is observed here)"]
+               "taxa / taxa_grp labels: observed after every step (taxa_grp = identity mod 3 must travel with its taxon); "
+               "the label machinery itself is C03's",
+               "numpy index normalisation (negative / slice / mask / several insert positions): C03's normalisers "
+               "LabelMat.normIdxs / DelIdx.norm / insPlan, compared with numpy through the correspondence"]
     ASSUMPTIONS = ["finite inputs are integers or dyadic rationals (|x| <= ~1e6) so float results are within "
                    "1e-9 relative / 1e-12*(1+max|x|) absolute of the exact value",
-                   "NaN is the only non-finite input; index arguments are non-negative and (valid stream) in range",
+                   "NaN is the only non-finite input; several insert positions are given sorted (unsorted: not modelled)",
                    "statistics are not requested on a matrix with 0 taxa (numpy raises there)"]
 
     # ------------------------------------------------------------------ corpus
@@ -261,6 +296,15 @@ class C15(Prop):
             h(ntrait=1, rows=[[4], [5], [6]], taxa=[0, 1, 2], ops=[{"op": "remove", "idx": [0, 2]}]),
             # constant trait whose float mean is inexact: scale 1.4e-17 instead of 1, stored values -1
             h(ntrait=1, rows=[[f01], [f01], [f01]], taxa=[0, 1, 2], ops=[]),
+            # the three seeded kinds: huge offset with spread 0.5; unscale -> in-place edit -> unscale/select;
+            # constant trait with a NaN (also: observed once)
+            h(ntrait=2, rows=[[10 ** 9, "1999999999/2"], ["2000000001/2", 10 ** 9], ["1999999999/2", "2000000001/2"],
+                              [10 ** 9, 10 ** 9]], taxa=[0, 1, 2, 3], ops=[{"op": "select", "idx": [3, 0, 1]}]),
+            h(ntrait=2, rows=nc + [[8, 1]], taxa=[0, 1, 2, 3],
+              ops=[{"op": "reorder", "idx": [2, 0, 3, 1]}, {"op": "select", "idx": [1, 0, 3]},
+                   {"op": "reorder", "idx": [1, 2, 0]}, {"op": "delete", "idx": [0]}]),
+            h(ntrait=2, rows=[["15/2", "nan"], ["15/2", "13/4"], ["nan", "nan"], ["15/2", "nan"]], taxa=[0, 1, 2, 3],
+              ops=[{"op": "delete", "idx": [1]}], cls="EBV"),
             # boundaries that must hold
             h(ntrait=2, rows=nc, taxa=[0, 1, 2],
               ops=[{"op": "select", "idx": [2, 0, 2]},
@@ -291,6 +335,14 @@ class C15(Prop):
         elif style == "offset":
             base = rng.choice([10 ** 6, -10 ** 6, 123456])
             c = [base + rng.randint(0, 12) + rng.choice([0, 0, Fraction(1, 2)]) for _ in range(n)]
+        elif style == "huge":           # offset 1e9 with a spread of 0.5: one-pass variance formulas cancel
+            base = rng.choice([10 ** 9, -10 ** 9])
+            c = [base + rng.choice([Fraction(-1, 2), 0, Fraction(1, 2)]) for _ in range(n)]
+        elif style == "constnan":       # constant among the observed taxa, with missing values
+            v = rng.choice([0, 5, -3, Fraction(7, 4), Fraction(15, 2)])
+            c = [v] * n
+            for i in rng.sample(range(n), rng.randint(1, max(1, n - 1)) if n > 1 else 0):
+                c[i] = "nan"
         elif style == "constant":
             v = rng.choice([0, 5, -3, Fraction(7, 4), 10 ** 6 + 1])
             c = [v] * n
@@ -310,7 +362,7 @@ class C15(Prop):
         cols = []
         for j in range(t):
             if const_ok:
-                st = styles[j] if styles else rng.choice(["int", "int", "dyadic", "offset", "two", "ties", "constant"])
+                st = styles[j] if styles else rng.choice(["int", "int", "dyadic", "offset", "two", "ties", "constant", "huge", "constnan"])
                 c = self._column(rng, n, st)
                 r = rng.random()
                 if nan_ok and r < 0.18 and n >= 1:
@@ -325,7 +377,7 @@ class C15(Prop):
                 elif st == "dyadic":
                     c = [Fraction(v, 4) for v in rng.sample(range(-200, 201), n)]
                 else:
-                    base = rng.choice([10 ** 6, -10 ** 6, 123456])
+                    base = rng.choice([10 ** 6, -10 ** 6, 123456, 10 ** 9])
                     c = [base + Fraction(v, 2) for v in rng.sample(range(0, max(40, 2 * n)), n)]
                 if nan_ok and n >= 4 and rng.random() < 0.15:
                     c[rng.randrange(n)] = "nan"
@@ -341,7 +393,8 @@ class C15(Prop):
             n = rng.choice([49, 98, 103])
         t = rng.choice([1, 1, 2, 2, 3, 4])
         styles = [rng.choice(["int", "dyadic", "offset"] if quiet else
-                             ["int", "int", "dyadic", "offset", "two", "ties", "constant"]) for _ in range(t)]
+                             ["int", "int", "dyadic", "offset", "two", "ties", "constant", "huge", "constnan"])
+                  for _ in range(t)]
         rows = self._rows(rng, n, t, const_ok=not quiet, styles=styles)
         taxa = list(range(n))
         fresh = [n]
@@ -375,6 +428,8 @@ class C15(Prop):
                 idx = [rng.randrange(cur) for _ in range(m)]
                 if quiet and len(set(idx)) < 2:
                     idx[0] = (idx[-1] + 1) % cur
+                if rng.random() < 0.35:          # negative positions count from the end
+                    idx = [i - cur if rng.random() < 0.5 else i for i in idx]
                 ops.append({"op": k, "idx": idx, "form": rng.choice(["list", "array"])})
                 cur = m
             elif k in ("delete", "remove"):
@@ -391,12 +446,53 @@ class C15(Prop):
                         and rng.random() < 0.3:
                     idx = sorted(idx)
                     form = "slice"
-                ops.append({"op": k, "idx": idx, "form": form})
+                op = {"op": k, "idx": idx, "form": form}
+                if k == "delete" and rng.random() < 0.5:        # the numpy index object as a caller writes it
+                    keep_min = max(1, lo)
+                    r2 = rng.random()
+                    if r2 < 0.3:
+                        m = [i in set(idx) for i in range(cur)]
+                        op = {"op": k, "obj": {"kind": "mask", "m": m}}
+                    elif r2 < 0.55 and idx:
+                        op = {"op": k, "obj": {"kind": "list", "is": [i - cur if rng.random() < 0.5 else i for i in idx]}}
+                    elif r2 < 0.7 and idx:
+                        i0 = idx[0]
+                        op = {"op": k, "obj": {"kind": "int", "i": i0 - cur if rng.random() < 0.5 else i0}}
+                        idx = [i0]
+                    else:
+                        a = rng.choice([None, 0, 1, -2, -cur])
+                        bb = rng.choice([None, cur - 1, -1, 2, cur + 3])
+                        c = rng.choice([None, 1, 2, 2, -1])
+                        gone = list(range(cur))[slice(a, bb, c)]
+                        if cur - len(gone) >= keep_min:
+                            op = {"op": k, "obj": {"kind": "slice", "a": a, "b": bb, "c": c}}
+                            idx = gone
+                ops.append(op)
                 cur -= len(set(idx))
             elif k in ("insert", "incorp"):
                 v = operand()
-                ops.append({"op": k, "k": rng.randint(0, cur), "kform": rng.choice(["int", "list"]), "vals": v})
-                cur += len(v["taxa"])
+                op = {"op": k, "k": rng.randint(0, cur), "kform": rng.choice(["int", "list"]), "vals": v}
+                q = len(v["taxa"])
+                added = q
+                if k == "insert" and rng.random() < 0.5:
+                    r2 = rng.random()
+                    neg = lambda p: p - cur if (p < cur and rng.random() < 0.4) else p
+                    if r2 < 0.25:
+                        op = {"op": k, "obj": {"kind": "int", "i": neg(op["k"])}, "vals": v}
+                    elif r2 < 0.65:             # one value before each of several sorted positions
+                        ps = sorted(rng.randint(0, cur) for _ in range(q))
+                        op = {"op": k, "obj": {"kind": "list", "is": [neg(p) for p in ps]}, "vals": v}
+                    elif r2 < 0.9:              # a single value broadcast to several positions
+                        v = operand(1)
+                        ps = sorted(rng.randint(0, cur) for _ in range(rng.choice([2, 3])))
+                        op = {"op": k, "obj": {"kind": "list", "is": ps}, "vals": v}
+                        added = len(ps)
+                    elif cur >= 2:              # a slice of positions
+                        v = operand(2)
+                        op = {"op": k, "obj": {"kind": "slice", "a": 0, "b": 2, "c": None}, "vals": v}
+                        added = 2
+                ops.append(op)
+                cur += added
             elif k in ("adjoin", "append"):
                 v = operand()
                 ops.append({"op": k, "vals": v})
@@ -413,18 +509,25 @@ class C15(Prop):
                     cur += len(v["taxa"])
                 ops.append({"op": k, "others": others})
         if profile == "malformed":
-            bad = rng.choice(["index", "index_del", "pos", "shape"])
+            bad = rng.choice(["index", "index_del", "pos", "shape", "neg", "mask", "count"])
             if bad == "index":
                 ops.append({"op": "select", "idx": [0] * min(cur, 1) + [cur + rng.randint(0, 2)]})
             elif bad == "index_del":
                 ops.append({"op": "delete", "idx": [cur + rng.randint(0, 2)]})
+            elif bad == "neg":
+                ops.append({"op": "select", "idx": [-(cur + 1 + rng.randint(0, 1))]})
+            elif bad == "mask":
+                ops.append({"op": "delete", "obj": {"kind": "mask", "m": [True] * (cur + 1)}})
+            elif bad == "count":
+                ops.append({"op": "insert", "obj": {"kind": "list", "is": [0, 0, min(cur, 1)]}, "vals": operand(2)})
             elif bad == "pos":
                 ops.append({"op": "insert", "k": cur + 1 + rng.randint(0, 2), "kform": "list", "vals": operand(1)})
             else:
                 ops.append({"op": rng.choice(["adjoin", "insert"]), "k": 0, "kform": "list",
                             "vals": operand(bad_t=True)})
         return {"kind": "history", "cls": rng.choice(["BV", "BV", "BV", "EBV", "GEBV"]),
-                "generic": rng.random() < 0.3, "ntrait": t, "rows": rows, "taxa": taxa, "ops": ops}
+                "generic": rng.random() < 0.3, "grp": rng.random() < 0.6, "ntrait": t, "rows": rows, "taxa": taxa,
+                "ops": ops}
 
     def _scaled(self, rng):
         n = rng.choice([1, 2, 3, 4, 6])
@@ -479,12 +582,13 @@ class C15(Prop):
         t = case["ntrait"]
         raw = _np_rows(case["rows"], t)
         raw0 = raw.copy()
-        b = cls.from_numpy(raw, taxa=_names(case["taxa"]))
+        grp = bool(case.get("grp"))
+        b = cls.from_numpy(raw, taxa=_names(case["taxa"]), taxa_grp=_grps(case["taxa"]) if grp else None)
         steps = [_snap(b)]
         for op in case["ops"]:
             tt = op.get("vals", {}).get("ntrait", t) if isinstance(op.get("vals"), dict) else t
             try:
-                b = _apply(cls, b, op, tt, case.get("generic", False))
+                b = _apply(cls, b, op, tt, case.get("generic", False), grp)
             except Exception as e:      # attributed to the operation by the judge
                 steps.append({"raised": canon.exc_tag(e), "text": f"{type(e).__name__}: {e}"[:200]})
                 break
@@ -628,6 +732,13 @@ class C15(Prop):
                 fails.append((i, c))
         if not obs.get("input_untouched", True):
             fails.append((0, "input_mutated"))
+        # taxa_grp travels with the taxon (group = identity mod 3); absent iff never given
+        for i, st in enumerate(steps):
+            if "raised" in st or (i, "taxa") in fails:
+                continue
+            want = [x % 3 for x in st["taxa"]] if case.get("grp") else None
+            if st.get("taxa_grp") != want and i < len(verdicts) and not verdicts[i].get("invalid_op"):
+                fails.append((i, "taxa"))
         spec = not fails
         sig = None
         if fails:
@@ -747,6 +858,25 @@ class C15(Prop):
                            **kwargs)
             return classmethod(from_numpy)
 
+        def from_numpy_one_pass(cls, mat, taxa=None, taxa_grp=None, trait=None, **kwargs):
+            location = numpy.nanmean(mat, axis=0)
+            scale = numpy.sqrt(numpy.nanmean(mat * mat, axis=0) - location * location)
+            scale[scale == 0.0] = 1.0
+            mat = (1.0 / scale[None, :]) * (mat - location[None, :])
+            return cls(mat=mat, location=location, scale=scale, taxa=taxa, taxa_grp=taxa_grp, trait=trait, **kwargs)
+
+        def unscale_memoised(self):
+            # cached once per object; the inherited in-place routines assign self._mat directly and
+            # never drop the cache
+            if self.__dict__.get("_unscaled") is None:
+                self.__dict__["_unscaled"] = (self._scale * self._mat) + self._location
+            return self.__dict__["_unscaled"]
+
+        def tstd_shortcut(self, unscale=False):
+            if unscale:
+                return numpy.where((self._mat != 0.0).any(axis=self.taxa_axis), self._scale, 0.0)
+            return self._mat.std(axis=self.taxa_axis)
+
         def unscale_wrong(self):
             return self._scale * (self._mat + self._location)
 
@@ -754,6 +884,27 @@ class C15(Prop):
             mat = numpy.take(self.mat, indices, axis=self.taxa_axis)
             taxa = None if self.taxa is None else numpy.take(self.taxa, indices, axis=0)
             return self.__class__.from_numpy(mat=mat, taxa=taxa, trait=self.trait, **kwargs)
+
+        def select_group_sorted(self, indices, **kwargs):
+            mat = numpy.take(self.unscale(), indices, axis=self.taxa_axis)
+            taxa = None if self.taxa is None else numpy.take(self.taxa, indices, axis=0)
+            grp = None if self.taxa_grp is None else numpy.sort(numpy.take(self.taxa_grp, indices, axis=0))
+            return self.__class__.from_numpy(mat=mat, taxa=taxa, taxa_grp=grp, trait=self.trait, **kwargs)
+
+        def select_abs_indices(self, indices, **kwargs):
+            ix = numpy.abs(numpy.asarray(indices, dtype=int))     # negative positions not wrapped
+            mat = numpy.take(self.unscale(), ix, axis=self.taxa_axis)
+            taxa = None if self.taxa is None else numpy.take(self.taxa, ix, axis=0)
+            grp = None if self.taxa_grp is None else numpy.take(self.taxa_grp, ix, axis=0)
+            return self.__class__.from_numpy(mat=mat, taxa=taxa, taxa_grp=grp, trait=self.trait, **kwargs)
+
+        orig_insert = BV.__dict__["insert_taxa"]
+
+        def insert_values_reversed(self, obj, values, taxa=None, taxa_grp=None, **kwargs):
+            # several positions: the data rows go in reversed, the labels do not
+            if isinstance(obj, list) and len(obj) > 1 and isinstance(values, numpy.ndarray) and values.shape[0] > 1:
+                values = values[::-1]
+            return orig_insert(self, obj, values, taxa=taxa, taxa_grp=taxa_grp, **kwargs)
 
         def delete_off_by_one(self, obj, **kwargs):
             mat = self.unscale()
@@ -849,9 +1000,14 @@ class C15(Prop):
             # mechanism 1: from_numpy
             ("from_numpy_scale_not_guarded", lambda: patch(BV, "from_numpy", from_numpy_factory(guard=False))),
             ("from_numpy_location_nanmedian", lambda: patch(BV, "from_numpy", from_numpy_factory(center="nanmedian"))),
+            ("from_numpy_one_pass_scale", lambda: patch(BV, "from_numpy", classmethod(from_numpy_one_pass))),
             # mechanism 2: unscale and the structural operations
+            ("unscale_memoised_not_invalidated", lambda: patch(BV, "unscale", unscale_memoised)),
             ("unscale_scale_times_mat_plus_location", lambda: patch(BV, "unscale", unscale_wrong)),
             ("select_taxa_without_unscaling", lambda: patch(BV, "select_taxa", select_no_unscale)),
+            ("select_taxa_groups_sorted_apart_from_taxa", lambda: patch(BV, "select_taxa", select_group_sorted)),
+            ("select_taxa_negative_positions_not_wrapped", lambda: patch(BV, "select_taxa", select_abs_indices)),
+            ("insert_taxa_several_positions_rows_reversed", lambda: patch(BV, "insert_taxa", insert_values_reversed)),
             ("delete_taxa_rows_rotated", lambda: patch(BV, "delete_taxa", delete_off_by_one)),
             ("adjoin_taxa_operand_not_unscaled", lambda: patch(BV, "adjoin_taxa", adjoin_scaled_values)),
             # mechanism 3: statistics
@@ -862,6 +1018,7 @@ class C15(Prop):
             ("tvar_returns_scale", lambda: patch(BV, "tvar", tvar_is_scale)),
             ("tstd_returns_stored_scale_D9", lambda: patch(BV, "tstd", tstd_prerepair)),
             ("tvar_returns_stored_scale_squared_D9", lambda: patch(BV, "tvar", tvar_prerepair)),
+            ("tstd_scale_wherever_stored_nonzero", lambda: patch(BV, "tstd", tstd_shortcut)),
             ("targmax_last_occurrence", lambda: patch(BV, "targmax", targmax_last)),
             ("targmin_is_argmax", lambda: patch(BV, "targmin", targmin_is_argmax)),
             # mechanism 4: DenseScaledMatrix
